@@ -57,6 +57,11 @@ CLAIMED["C05"] = ("exploration",
    "Sub-mounts inside bind sources and nosuid/nodev flags of rw binds are not asserted (the property does not state them); a mask on top of a configured mount point is not generated; tables the implementation refuses (Build/launch error) are counted, not judged.",
    "property-based testing (rapid) with a model of the expected file-system view; probe self-report + host mountinfo", "§3 C05")
 
+CLAIMED["C10"] = ("exploration",
+   "Generated histories (4..24 operations: Ping, Open/Symlink batches over a small name pool so that existing/missing/duplicate cases occur, Delete, Reset, Execve with 13 target kinds x SyncFunc {nil, ok, failing} x SyncAfterExec x context {background, already cancelled, cancelled after 0..12 ms} x program duration, and cutting the transport) run against a fresh environment and against a model of the container file system and of each call's outcome. Per call: exactly one answer within 20 s that matches the model for this call (per-call exit codes, descriptor names, error texts carrying the path); the host endpoint's message sequence of the call must be a word of the protocol in container/doc.go and the container endpoint's log must be its mirror at every quiescent point (tag-verif message hooks on both endpoints); final Ping + Execve(exit 7); after a transport cut every call fails within 5 s.",
+   "Requests and replies are kept below the 32 KiB frame; only open descriptors are listed. The two endpoints log from independent goroutines, so only per-direction projections are compared. Scheduling inside the two-event selects is left to the OS (cancel-after delays sweep it).",
+   "stateful / model-based property testing (rapid), protocol-automaton check over instrumented message logs", "§3 C10")
+
 NOT_YET = {}
 
 def main():
